@@ -195,7 +195,10 @@ def run(tier, seed, replay):
               ("power-gmres", {"use_precond": True, "use_rcm": True}), ("propagator", {}),
               # settings under which the inverse iteration may not converge: either an exception or a fixed point
               ("power", {"solver": "lstsq"}), ("power", {"power_maxiter": 2, "power_eps": 0.05}), ("power", {"power_maxiter": 3, "power_eps": 0.3}),
-              ("power", {"power_maxiter": 1}), ("propagator", {"propagator_max_iter": 2})]
+              ("power", {"power_maxiter": 1}), ("propagator", {"propagator_max_iter": 2}),
+              # iterative linear solvers that run out of iterations
+              ("direct", {"solver": "gmres", "maxiter": 1, "restart": 2}), ("direct", {"solver": "lgmres", "maxiter": 1}), ("direct", {"solver": "bicgstab", "maxiter": 1}),
+              ("direct", {"solver": "gmres", "maxiter": 2, "restart": 2, "use_precond": False, "use_rcm": True})]
     loose = {"gmres", "lgmres", "bicgstab"}
     nsys = 10 if tier == "quick" else 40
     for si in range(nsys):
